@@ -277,6 +277,9 @@ impl BDF {
             }
         }
 
+        // set when a step of the minimal size `min_step` has been rejected
+        let mut failed_at_hmin = false;
+
         'main_loop: loop {
             if steps.total >= nmax {
                 status = Status::NeedLargerNMax;
@@ -298,6 +301,11 @@ impl BDF {
                 lu_is_current = false;  // Step size changed
             }
             if h_try < hmin && hmin > 0.0 {
+                if failed_at_hmin {
+                    // the step cannot be reduced below min_step: give up instead of retrying forever
+                    status = Status::StepSizeTooSmall;
+                    break;
+                }
                 let factor = (hmin / h_try).max(1.0);
                 change_d(&mut d, order, factor, &mut scratch_change);
                 h_try = hmin;
@@ -381,6 +389,7 @@ impl BDF {
                         n_equal_steps = 0;
                         lu_is_current = false;
                         steps.rejected += 1;
+                        failed_at_hmin = hmin > 0.0 && h_try <= hmin;
                         continue 'main_loop;
                     }
                 }
@@ -470,6 +479,7 @@ impl BDF {
                 current_h *= 0.5;
                 n_equal_steps = 0;
                 steps.rejected += 1;
+                failed_at_hmin = hmin > 0.0 && h_try <= hmin;
                 continue;
             }
 
@@ -500,10 +510,12 @@ impl BDF {
                 current_h *= factor;
                 n_equal_steps = 0;
                 steps.rejected += 1;
+                failed_at_hmin = hmin > 0.0 && h_try <= hmin;
                 continue;
             }
 
             steps.accepted += 1;
+            failed_at_hmin = false;
             n_equal_steps += 1;
             x = x_new;
             y.copy_from_slice(&y_new);
